@@ -49,6 +49,9 @@ def _extra(spec):
     out = []
     for t, v in spec:
         out.append((t, KNOWN_HEADERS[t](v) if t in KNOWN_HEADERS else bytes([v % 256]) * (v % 5)))
+        if t == 0x0344 and v % 2:
+            # Ack is the one repeatable header: several TxSequences acknowledged at once
+            out.append((t, KNOWN_HEADERS[t](v + 1)))
     return out
 
 
